@@ -373,7 +373,15 @@ func stepRemove(mask int, withCas bool) {
 func stepTouch(mask int) {
 	k := kvBegin(mask)
 	exp := verifU32("exp")
-	val, cas, err := k.c.GetAndTouchRaw(k.key, exp)
+	var val []byte
+	var cas uint64
+	var err error
+	viaTouch := verifBool("viaTouch")
+	if viaTouch {
+		cas, err = k.c.Touch(k.key, exp) // the wrapper: same effect, returns the CAS only
+	} else {
+		val, cas, err = k.c.GetAndTouchRaw(k.key, exp)
+	}
 	post := k.post()
 	if err != nil {
 		k.failed("refused")
@@ -386,7 +394,7 @@ func stepTouch(mask int) {
 	t1 := nowAsExpiry()
 	if k.want(pC01) {
 		verifAssert(k.pre.hasBody(), "touch of a key without a body reports it missing")
-		verifAssert(verifAnd(verifBytesEq(val, k.pre.Value), cas == uint64(k.pre.Cas)), "GetAndTouch returns the current body and CAS")
+		verifAssert(verifAnd(verifOr(viaTouch, verifBytesEq(val, k.pre.Value)), cas == uint64(k.pre.Cas)), "GetAndTouch returns the current body and CAS")
 		verifAssert(verifAnd(verifBytesEq(post.Value, k.pre.Value), k.sameXattrs(k.pre, post), post.IsJSON == k.pre.IsJSON), "touch leaves body and xattrs alone")
 		verifAssert(expOK(exp, post.Exp, k.t0, t1), "touch stores the new expiry in absolute form")
 	}
